@@ -12,9 +12,9 @@ vlib/c36_judge.py.
 """
 import os, sys, json, time, signal, select, sqlite3, traceback, threading, errno
 
-CHILD_TIMEOUT = 12.0     # watchdog inside C / G (seconds; generous: the machine may be heavily loaded)
-PARENT_TIMEOUT = 40.0    # watchdog inside P
-CASE_TIMEOUT = 55.0      # H waits this long for P
+CHILD_TIMEOUT = 30.0     # watchdog inside C / G (seconds; generous: the machine may be heavily loaded)
+PARENT_TIMEOUT = 150.0   # watchdog inside P
+CASE_TIMEOUT = 180.0     # H waits this long for P
 
 
 # ------------------------------------------------------------------------------------------------
